@@ -141,3 +141,51 @@ def _dplace(body, al, place, out, work):
     work.append(place.local)
     if root != place.local:
         work.append(root)
+
+
+def content_sources(body, al, local, limit=400):
+    """Like `sources`, but a container local also gets what is written *into* it: every call that
+    receives a mutable pointer to a visited local (push, extend, sort, deref_mut ...) is reported
+    and its other arguments are followed.  Returns (leaves, visited locals)."""
+    out = []
+    seen = set()
+    work = [local]
+    # calls by the root local of each pointer argument
+    by_root = {}
+    for bb, t in body.calls():
+        for i, o in enumerate(t.args):
+            if o.place is None:
+                continue
+            tt = al.operand_target(o)
+            if tt is not None and tt[2]:
+                by_root.setdefault(tt[0], []).append((bb, t, i))
+    n = 0
+    while work and n < limit:
+        l = work.pop()
+        if l in seen:
+            continue
+        seen.add(l)
+        n += 1
+        if 1 <= l <= body.nargs:
+            out.append(('param', l))
+        for (bb, idx, node) in body.defs.get(l, []):
+            if idx == 'term':
+                out.append(('call', node, bb))
+                for o in node.args:
+                    if o.place is not None:
+                        _place(body, al, o.place, out, work)
+            else:
+                rv = node.rv
+                for o in rv.ops:
+                    if o.place is not None:
+                        _place(body, al, o.place, out, work)
+                if rv.place is not None:
+                    _place(body, al, rv.place, out, work)
+        for (bb, t, i) in by_root.get(l, []):
+            out.append(('call', t, bb))
+            for j, o in enumerate(t.args):
+                if j != i and o.place is not None:
+                    _place(body, al, o.place, out, work)
+            if t.dest is not None and t.dest.is_local():
+                pass
+    return out, seen
